@@ -83,6 +83,11 @@ def apply_mod(meta_molecule, modifications):
         target_node = [node for node, resid in meta_molecule.nodes(data='resid')
                        if resid == target_resid][0]
         target_residue = meta_molecule.nodes[target_node]
+        # a residue name given in the specification has to fit as well
+        if 'resname' in target and target_residue['resname'] != target['resname']:
+            LOGGER.warning("The residue with resid {} is {} and not {}. Will not attempt to modify.",
+                           target_resid, target_residue['resname'], target['resname'])
+            continue
         # takes care to skip all residues that come from an itp file
         if not target_residue.get('from_itp', 'False'):
             LOGGER.warning("meta_molecule has come from itp. Will not attempt to modify.")
